@@ -211,7 +211,8 @@ def visibleIn (mnts : List Kernel.KMnt) (x : Kernel.KMnt) : Bool :=
   | none => false
   | some r => climb mnts.length r
 
-/-- region of the known finding `umount-order-hidden-submount`: the table has a mount at or
+/-- the defect repaired by 05db66c (formerly finding `umount-order-hidden-submount`; the
+    detection is kept so that a regression is named): the table has a mount at or
     below the build root `bd` that is hidden (covered by a mount stacked later on one of its
     ancestors), and yet an order exists in which every unmount call succeeds (latest mount
     first) — the order "deepest path first" of the code meets the hidden mount first -/
@@ -267,15 +268,9 @@ def c04 (v : StepView) : Verdict :=
                               else unmountBlocked v.pre v.users n
     let blocked := targets.filter isBlocked
     let idleMounted := targets.filter fun n => !isBlocked n && mountedAtOrBelow v.pre n
-    -- the known finding umount-order-hidden-submount (judged by C03) stops the command at
-    -- layer f: layers the loop had not reached yet are left alone as a consequence; a layer
-    -- derived from f had to be visited before f and is not excused
-    let excused := fun n => match hiddenAbort v targets with
-      | some f => n != f && !isAncestor ls f n
-      | none => false
     if blocked.any touched then bad "umount touched a layer that is in use or overlain"
     else if !blocked.isEmpty && clsOf v == "ok" then bad "umount reported success although a layer was blocked"
-    else if (a0.isEmpty || blocked.isEmpty) && idleMounted.any (fun n => !touched n && !excused n) && (targets.all fun n =>
+    else if (a0.isEmpty || blocked.isEmpty) && idleMounted.any (fun n => !touched n) && (targets.all fun n =>
         ((findD ls n).map (fun l => l.file.nmsgs == 0)).getD true) then
       bad "umount refused a layer although nothing works in its build, upper or work directory"
     else fine [(if blocked.isEmpty then "c04:umount-free" else "c04:umount-blocked")]
@@ -343,8 +338,8 @@ def c03 (v : StepView) : Verdict :=
   | some (_, s, e) =>
     if e == .ebusy then bad ("unmount of " ++ showB s.tgt ++ " while something is still mounted beneath it")
     else if (hiddenAbort v scope).isSome then
-      known "umount-order-hidden-submount" ("umount of an idle layer fails at " ++ showB s.tgt ++
-        ": mountpoints are unmounted in descending path order, which meets a submount hidden below a mount stacked on its ancestor; latest-mount-first would succeed")
+      bad ("umount of an idle layer fails at " ++ showB s.tgt ++
+        ": the unmount order meets a submount hidden below a mount stacked on its ancestor, although unmounting along the mount tree (latest mount first) would succeed")
     else bad ("unmount of " ++ showB s.tgt ++ " which is not a mountpoint")
   | none =>
     -- derived layers before the layers they sit on
